@@ -243,6 +243,13 @@ Definition payload_view (s : slice) (f : frame) : res slice :=
   o <- frame_payload s f ;; Ok (match o with Some x => x | None => nil_slice end).
 
 (* ---------------------------------------------------------------- *)
+(* Session.Statistics: one ProtoStats per PayloadID, indexed BY the id (ids start at 1), sized by NewSession
+   (session.go: make([]ProtoStats, 32)).  Parse does h.Statistics[id].Count++ on its way; an id >= this length would be
+   an index-out-of-range panic.  The harness reads the length off a session built by the library's constructor on
+   every run (kind "consts statslen"). *)
+Definition stats_len : N := 32.
+
+(* ---------------------------------------------------------------- *)
 (* Classification tables of Session.Parse, as explicit lists in SOURCE ORDER.  The harness (harness/cmd/c02)
    extracts the same tables from layer_frame.go with go/ast on every run and compares them row by row with these
    lists (dispatch kind "table"), so an edit or a reordering of a switch in Go is a correspondence failure on the
